@@ -184,6 +184,9 @@ type c15Frame struct {
 	RawType   byte
 	RawFlags  byte
 	deps      []*c15Frame
+	TableSize int // headers: new HPACK dynamic table size announced with this block, -1 none
+
+	hpackUpdate, hpackBeyond, hpackShrunk bool // set when encoding
 
 	gidx       int
 	start, end int   // extent in the direction's byte stream
@@ -243,6 +246,9 @@ type c15Stream struct {
 }
 
 type c15Case struct {
+	// BigTable: per direction, the HPACK dynamic table size (> 4096) the sending
+	// peer's encoder switches to with its first header block; 0 = default table
+	BigTable [2]int
 	IsServer bool
 	Streams  []*c15Stream
 	Frames   []*c15Frame // global order
@@ -332,6 +338,14 @@ func (cs *c15Case) headersFrame(tape *simrt.Tape, s *c15Stream, dir int, role st
 	if tape.Bool(1, 10, "hpad") {
 		f.Pad = 1 + tape.Choose(6, "hpadlen")
 	}
+	f.TableSize = -1
+	if cs.BigTable[dir] > 0 {
+		if tape.Bool(1, 4, "hpack-resize") {
+			f.TableSize = []int{0, 100, 1024, 4096, 16384, 65536}[tape.Choose(6, "hpack-size")]
+		}
+	} else if tape.Bool(1, 12, "hpack-shrink") {
+		f.TableSize = []int{0, 100, 1024, 4096}[tape.Choose(4, "hpack-size")]
+	}
 	if role == "request" && tape.Bool(1, 10, "prio") {
 		f.Prio = true
 	}
@@ -370,6 +384,19 @@ func c15Cut(tape *simrt.Tape, body []byte, num, den int, label string) []byte {
 func c15Generate(tape *simrt.Tape, tier string, illegalGoAway bool) *c15Case {
 	cs := &c15Case{}
 	cs.IsServer = tape.Bool(1, 2, "is-server")
+	for dir := 0; dir < 2; dir++ {
+		cs.BigTable[dir] = []int{0, 0, 0, 0, 16384, 65536}[tape.Choose(6, "hpack-table")]
+	}
+	// filler: distinct fields of more than 4096 bytes in total, so that what was put
+	// into the table before them is later referenced beyond the default table size
+	filler := func(tag string) []c15Hdr {
+		var out []c15Hdr
+		for i := 0; i < 6; i++ {
+			unit := fmt.Sprintf("%s.%d/", tag, i)
+			out = append(out, c15Hdr{fmt.Sprintf("x-fill-%d", i), strings.Repeat(unit, 850/len(unit))})
+		}
+		return out
+	}
 	maxStreams := 2
 	if tier == "thorough" {
 		maxStreams = 4
@@ -414,6 +441,12 @@ func c15Generate(tape *simrt.Tape, tier string, illegalGoAway bool) *c15Case {
 		if tape.Bool(1, 4, "multi") {
 			s.ReqFields = append(s.ReqFields, c15Hdr{"x-multi", "a"}, c15Hdr{"x-multi", "b"})
 		}
+		if cs.BigTable[dirReq] > 0 {
+			s.ReqFields = append(s.ReqFields, c15Hdr{"x-conn", "shared by all requests"})
+			if tape.Bool(1, 2, "hpack-filler") {
+				s.ReqFields = append(s.ReqFields, filler("q"+s.Marker)...)
+			}
+		}
 		if tape.Bool(1, 6, "long") {
 			s.ReqFields = append(s.ReqFields, c15Hdr{"x-long", strings.Repeat("v", 100+tape.Choose(900, "longlen"))})
 		}
@@ -447,6 +480,12 @@ func c15Generate(tape *simrt.Tape, tier string, illegalGoAway bool) *c15Case {
 		s.RespFields = []c15Hdr{{":status", fmt.Sprint(s.Status)}, {"content-type", rct}}
 		if tape.Bool(1, 3, "respenc") {
 			s.RespFields = append(s.RespFields, c15Hdr{"grpc-encoding", "gzip"})
+		}
+		if cs.BigTable[dirResp] > 0 {
+			s.RespFields = append(s.RespFields, c15Hdr{"x-server", "shared by all responses"})
+			if tape.Bool(1, 2, "hpack-filler") {
+				s.RespFields = append(s.RespFields, filler("p"+s.Marker)...)
+			}
 		}
 		if tape.Bool(1, 3, "xresp") {
 			s.RespFields = append(s.RespFields, c15Hdr{"x-resp", "r" + s.Marker}, c15Hdr{"x-resp", "again"})
@@ -523,6 +562,10 @@ func c15Generate(tape *simrt.Tape, tier string, illegalGoAway bool) *c15Case {
 	queues := [][]*c15Frame{{preface, setC, ackC}, {setS, ackS}}
 	for i, s := range cs.Streams {
 		s.req[0].deps = append(s.req[0].deps, setC)
+		if cs.BigTable[dirReq] > 0 {
+			// the client may only enlarge its table after the server's SETTINGS allowed it
+			s.req[0].deps = append(s.req[0].deps, setS)
+		}
 		if i > 0 {
 			s.req[0].deps = append(s.req[0].deps, cs.Streams[i-1].req[0])
 		}
@@ -658,6 +701,31 @@ type c15Encoder struct {
 	hbuf [2]bytes.Buffer
 	fr   [2]*http2.Framer
 	enc  [2]*hpack.Encoder
+	// twin encoders that are never allowed more than the default 4096 bytes: as long as
+	// both produce the same block, nothing beyond 4096 bytes has been referenced
+	hbuf2    [2]bytes.Buffer
+	enc2     [2]*hpack.Encoder
+	diverged [2]bool
+	big      [2]int
+	bigDone  [2]bool
+}
+
+// c15StripSizeUpdates removes leading "dynamic table size update" instructions.
+func c15StripSizeUpdates(b []byte) []byte {
+	for len(b) > 0 && b[0]&0xE0 == 0x20 {
+		i := 1
+		if b[0]&0x1F == 0x1F {
+			for i < len(b) && b[i]&0x80 != 0 {
+				i++
+			}
+			i++
+		}
+		if i > len(b) {
+			i = len(b)
+		}
+		b = b[i:]
+	}
+	return b
 }
 
 func newC15Encoder() *c15Encoder {
@@ -666,6 +734,8 @@ func newC15Encoder() *c15Encoder {
 		e.fr[d] = http2.NewFramer(&e.buf[d], nil)
 		e.fr[d].AllowIllegalWrites = true
 		e.enc[d] = hpack.NewEncoder(&e.hbuf[d])
+		e.enc[d].SetMaxDynamicTableSizeLimit(1 << 16)
+		e.enc2[d] = hpack.NewEncoder(&e.hbuf2[d])
 	}
 	return e
 }
@@ -682,7 +752,7 @@ func (e *c15Encoder) write(f *c15Frame) error {
 		e.buf[d].WriteString(clientPreface)
 		f.phys = nil
 	case fkSettings:
-		err = fr.WriteSettings(http2.Setting{ID: http2.SettingMaxConcurrentStreams, Val: 100}, http2.Setting{ID: http2.SettingInitialWindowSize, Val: 1 << 20})
+		err = fr.WriteSettings(http2.Setting{ID: http2.SettingHeaderTableSize, Val: 1 << 16}, http2.Setting{ID: http2.SettingMaxConcurrentStreams, Val: 100}, http2.Setting{ID: http2.SettingInitialWindowSize, Val: 1 << 20})
 	case fkSettingsAck:
 		err = fr.WriteSettingsAck()
 	case fkPing:
@@ -691,12 +761,31 @@ func (e *c15Encoder) write(f *c15Frame) error {
 		err = fr.WriteWindowUpdate(0, 65535)
 	case fkHeaders:
 		e.hbuf[d].Reset()
+		size := f.TableSize
+		if size < 0 && e.big[d] > 0 && !e.bigDone[d] {
+			size = e.big[d]
+		}
+		if size >= 0 {
+			e.bigDone[d] = true
+			f.hpackUpdate = size > 4096
+			f.hpackShrunk = uint32(size) < e.enc[d].MaxDynamicTableSize()
+			e.enc[d].SetMaxDynamicTableSize(uint32(size))
+			e.enc2[d].SetMaxDynamicTableSize(uint32(size)) // clamped to 4096
+			if size == 0 {
+				e.diverged[d] = false // both tables are empty again
+			}
+		}
+		e.hbuf2[d].Reset()
 		for _, h := range f.Fields {
 			if err := e.enc[d].WriteField(hpack.HeaderField{Name: h.Name, Value: h.Value}); err != nil {
 				return err
 			}
+			_ = e.enc2[d].WriteField(hpack.HeaderField{Name: h.Name, Value: h.Value})
 		}
 		block := append([]byte(nil), e.hbuf[d].Bytes()...)
+		if !e.diverged[d] && e.enc[d].MaxDynamicTableSize() > 4096 && !bytes.Equal(c15StripSizeUpdates(block), c15StripSizeUpdates(e.hbuf2[d].Bytes())) {
+			e.diverged[d], f.hpackBeyond = true, true
+		}
 		cuts := []int{0}
 		for _, pm := range f.CutPm {
 			cuts = append(cuts, len(block)*pm/1000)
@@ -730,6 +819,7 @@ func (e *c15Encoder) write(f *c15Frame) error {
 
 func (cs *c15Case) encode() error {
 	e := newC15Encoder()
+	e.big = cs.BigTable
 	for _, f := range cs.Frames {
 		if err := e.write(f); err != nil {
 			return fmt.Errorf("%s: %w", f, err)
@@ -744,22 +834,23 @@ func (cs *c15Case) encode() error {
 // driver: one goroutine issuing Read and Write calls on the wrapped conn
 
 type c15Driver struct {
-	tape     *simrt.Tape
-	res      *simwork.Result
-	inner    *c15Conn
-	conn     net.Conn
-	sink     *c15Sink
-	readDir  int
-	data     [2][]byte
-	pos      [2]int
-	tracerAt int // write direction: how far the tracer has seen (differs from pos after a short write)
-	starts   [2][]int
-	ends     [2][]int
-	calls    []string
-	hash     uint64
-	ncalls   int
-	after    func()
-	callErr  error // error the current Read returns together with its data
+	tape      *simrt.Tape
+	res       *simwork.Result
+	inner     *c15Conn
+	conn      net.Conn
+	sink      *c15Sink
+	readDir   int
+	data      [2][]byte
+	pos       [2]int
+	tracerAt  int // write direction: how far the tracer has seen (differs from pos after a short write)
+	starts    [2][]int
+	ends      [2][]int
+	calls     []string
+	hash      uint64
+	ncalls    int
+	after     func()
+	callErr   error // error the current Read returns together with its data
+	teardowns int   // failed Read/Write calls and Close calls so far
 
 	faultKind string
 	faultAt   int
@@ -902,6 +993,7 @@ func (d *c15Driver) endConn(kind string, err error) {
 		d.endKind, d.connErr, d.connEndAt = kind, err, d.now()
 		d.res.Faults[kind]++
 	}
+	d.teardowns++
 	d.dead = true
 }
 
@@ -918,6 +1010,7 @@ func (d *c15Driver) doClose(kind string) {
 		return
 	}
 	d.note("C", 0, cerr)
+	d.teardowns++
 	if len(d.inner.log) != before+1 || d.inner.log[before].Op != "close" || gerr != cerr {
 		d.viol("c15/transparency", "Close: caller got %v, inner conn returned %v (%d inner calls)", gerr, cerr, len(d.inner.log)-before)
 	}
@@ -1062,9 +1155,32 @@ func (d *c15Driver) finish() {
 	if d.panicked {
 		return
 	}
-	time.Sleep(4 * time.Second)
-	if d.endKind != "close-early" {
+	// the peer goes away after everything was exchanged: EOF or an error on the next Read
+	if !d.dead && d.tape.Bool(1, 4, "read-fault-at-end") {
+		kind, ferr := "read-eof", io.EOF
+		if d.tape.Bool(1, 2, "read-fault-at-end-error") {
+			kind, ferr = "read-error", c15ErrRead
+		}
+		d.doRead(0, ferr)
+		if d.panicked {
+			return
+		}
+		d.endConn(kind, ferr)
+	}
+	// teardown may be triggered more than once: a failed Read/Write followed by Close
+	// (at once or later), Close called twice
+	closed := d.endKind == "close-early"
+	if d.dead && !closed && d.tape.Bool(1, 2, "close-right-after-fault") {
 		d.doClose("close")
+		closed = true
+	}
+	time.Sleep(4 * time.Second)
+	if !closed {
+		d.doClose("close")
+	}
+	if !d.panicked && d.tape.Bool(1, 3, "close-twice") {
+		d.doClose("close")
+		d.res.Probes["close-twice"]++
 	}
 	time.Sleep(time.Second)
 }
@@ -1157,8 +1273,9 @@ type c15Exp struct {
 }
 
 type c15End struct {
-	at  time.Duration
-	err error // nil: closed
+	at        time.Duration
+	err       error // nil: closed
+	teardowns int   // how often the end of the connection was signalled to the tracer
 }
 
 // c15ModelStream walks the completely delivered frames in completion order.
@@ -1577,7 +1694,14 @@ func c15Judge(cs *c15Case, seq []*c15Frame, end *c15End, got []c15Delivery) *c15
 	}
 	for _, p := range parked {
 		v.probes["refused-not-retried"]++
-		_ = p
+		if exps[p].finalAt+retryWait > end.at && end.teardowns >= 2 {
+			v.probes["parked-trace-teardown-twice"]++ // held back when the connection ended, then torn down again
+		}
+	}
+	for i, s := range cs.Streams {
+		if e := exps[i]; s.Named && want[i] == 1 && e.final == "goaway" && e.code == http2.ErrCodeNo && e.finalAt+retryWait > end.at && end.teardowns >= 2 {
+			v.probes["parked-trace-teardown-twice"]++
+		}
 	}
 	for i, s := range cs.Streams {
 		e, ds := exps[i], byStream[i]
@@ -1720,6 +1844,17 @@ func c15WellformedBody(tape *simrt.Tape, o simwork.Opts, res *simwork.Result) {
 	d.after = func() {
 		for nDone < len(cs.Frames) && d.pos[cs.Frames[nDone].Dir] >= cs.Frames[nDone].end {
 			cs.Frames[nDone].doneAt = d.now()
+			if f := cs.Frames[nDone]; f.Kind == fkHeaders {
+				if f.hpackUpdate {
+					res.Probes["hpack-table-size-update"]++
+				}
+				if f.hpackBeyond {
+					res.Probes["hpack-index-beyond-4096"]++
+				}
+				if f.hpackShrunk {
+					res.Probes["hpack-table-shrunk"]++
+				}
+			}
 			if f := cs.Frames[nDone]; d.callErr != nil && f.Dir == d.readDir && (f.EndStream || f.Kind == fkRST || f.Kind == fkGoAway) {
 				res.Probes["stream-end-delivered-with-error"]++
 				if _, isTimeout := d.callErr.(c15Timeout); isTimeout {
@@ -1783,7 +1918,7 @@ func c15WellformedBody(tape *simrt.Tape, o simwork.Opts, res *simwork.Result) {
 		res.End = "panic"
 		return
 	}
-	end := &c15End{at: d.connEndAt, err: d.connErr}
+	end := &c15End{at: d.connEndAt, err: d.connErr, teardowns: d.teardowns}
 	d.sink.mu.Lock()
 	got := append([]c15Delivery(nil), d.sink.got...)
 	d.sink.mu.Unlock()
@@ -1818,7 +1953,7 @@ func c15Soup(tape *simrt.Tape) []*c15Frame {
 	frames := []*c15Frame{{Dir: dirReq, Kind: fkPreface, Stream: -1}, {Dir: dirReq, Kind: fkSettings, Stream: -1}}
 	n := 2 + tape.Choose(14, "soup-n")
 	for i := 0; i < n; i++ {
-		f := &c15Frame{Dir: tape.Choose(2, "soup-dir"), Stream: -1, Parts: 1}
+		f := &c15Frame{Dir: tape.Choose(2, "soup-dir"), Stream: -1, Parts: 1, TableSize: -1}
 		f.SID = []uint32{1, 1, 3, 5, 0, 2}[tape.Choose(6, "soup-sid")]
 		f.EndStream = tape.Bool(1, 3, "soup-es")
 		named := !tape.Bool(1, 3, "soup-unnamed")
@@ -1934,12 +2069,13 @@ func c15BytesBody(tape *simrt.Tape, o simwork.Opts, res *simwork.Result) {
 	switch mode {
 	case 0, 1:
 		var frames []*c15Frame
+		e := newC15Encoder()
 		if mode == 0 {
-			frames = c15Generate(tape, o.Tier, true).Frames
+			cs := c15Generate(tape, o.Tier, true)
+			frames, e.big = cs.Frames, cs.BigTable
 		} else {
 			frames = c15Soup(tape)
 		}
-		e := newC15Encoder()
 		for _, f := range frames {
 			if err := e.write(f); err != nil {
 				continue // a frame the Framer refuses to write is simply left out
